@@ -451,3 +451,39 @@ func VerifC09Forks() {
 func VerifC09ExpiryZero() {
 	c09Chain(verifParam("maxLen", 2, 3), 1, verifParam("maxRestarts", 1, 1), true)
 }
+
+// VerifC09Concurrent: block 1 (one transaction) is processing; its acceptance (TimeValidityWindow.Accept, which runs on
+// the asynchronous accept goroutine of the VM) races with the verification of — or the builder's question about — a
+// child that repeats the transaction. On every interleaving the repeat must be seen: the window must never be in a state
+// where block 1 counts as accepted while its transactions are not tracked yet.
+func VerifC09Concurrent() {
+	ctx := context.Background()
+	w := c09NewWorld(1, false)
+	b1 := w.addBlock(0, []int{0})
+	w.idx.blks[1], w.idx.live[1] = b1, true
+	w.nblks = 2
+	b2 := w.addBlock(1, []int{0})
+	w.idx.blks[2], w.idx.live[2] = b2, true
+	w.nblks = 3
+	done := make(chan struct{})
+	go func() {
+		w.tvw.Accept(b1)
+		close(done)
+	}()
+	if verifChoose("question", 2) == 0 {
+		if err := w.tvw.VerifyExpiryReplayProtection(ctx, b2); err == nil {
+			verifFail("repeat-verified-while-parent-is-being-accepted")
+		}
+		verifReach("rejected")
+	} else {
+		marker, err := w.tvw.IsRepeat(ctx, b1, b2.ts, b2.txs)
+		if err == nil {
+			if !marker.Contains(0) {
+				verifFail("builder-repeat-unmarked-while-parent-is-being-accepted")
+			}
+		}
+		verifReach("marked")
+	}
+	<-done
+	verifReach("end")
+}
